@@ -42,6 +42,7 @@ CONSTANTS Classes,      \* top level classes to enumerate
           MaxL,         \* 1D lattices: L in 1..MaxL
           MaxLx, MaxLy, \* 2D lattices
           NLegs,        \* set of leg numbers for NLegLadder
+          NLegSpacing,  \* "squeezed" | "unit": geometry of NLegLadder (see Geo)
           MaxN,         \* bound on the number of sites of the (regular) lattice
           MaxShift,     \* bc_shift in -MaxShift..MaxShift
           BcMode,       \* "all": every combination; "periodic": only fully periodic, no shift
@@ -115,8 +116,12 @@ I3 == << <<1, 0, 0>>, <<0, 1, 0>>, <<0, 0, 1>> >>
 Geo(base, nleg) ==
     CASE base = "Chain"      -> [G |-> << <<1>> >>, gs |-> 1, den |-> 1, B |-> << <<1>> >>, P |-> << <<0>> >>]
       [] base = "Ladder"     -> [G |-> I2, gs |-> 1, den |-> 1, B |-> << <<1, 0>> >>, P |-> << <<0, 0>>, <<0, 1>> >>]
-      [] base = "NLegLadder" -> [G |-> I2, gs |-> 1, den |-> nleg - 1, B |-> << <<nleg - 1, 0>> >>,
-                                 P |-> [u \in 1..nleg |-> <<0, u - 1>>]]       \* legs at y = u/(nleg-1)
+      \* legs at y = u/(nleg-1) ("squeezed", ladder of total width 1) or at y = u ("unit", rungs as long as the
+      \* steps along the legs): the harness selects the variant from unit_cell_positions of the implementation
+      [] base = "NLegLadder" -> IF NLegSpacing = "unit"
+                                THEN [G |-> I2, gs |-> 1, den |-> 1, B |-> << <<1, 0>> >>, P |-> [u \in 1..nleg |-> <<0, u - 1>>]]
+                                ELSE [G |-> I2, gs |-> 1, den |-> nleg - 1, B |-> << <<nleg - 1, 0>> >>,
+                                      P |-> [u \in 1..nleg |-> <<0, u - 1>>]]
       [] base = "Square"     -> [G |-> I2, gs |-> 1, den |-> 1, B |-> I2, P |-> << <<0, 0>> >>]
       \* basis (sqrt3/2, 1/2), (0, 1): frame = basis, Gram = [[1, 1/2], [1/2, 1]]
       [] base = "Triangular" -> [G |-> << <<2, 1>>, <<1, 2>> >>, gs |-> 2, den |-> 1, B |-> I2, P |-> << <<0, 0>> >>]
